@@ -100,6 +100,38 @@ def read_machine(rel, clsname, enumname):
     return states, index, trans, current, enum_vals
 
 
+def engine_locked() -> bool:
+    """StateMachine._perform_transition: are the source check, leave, the assignment of the current state, enter and the called event
+    all inside ONE `with self.<lock>:` block, <lock> being a threading.RLock / Lock created in __init__?"""
+    import ast
+    rel = "secsgem/common/state_machine.py"
+    cls = find_class(parse(rel), "StateMachine", rel)
+    init = find_method(cls, "__init__")
+    locks = set()
+    for n in ast.walk(init):
+        if (isinstance(n, ast.Assign) and len(n.targets) == 1 and isinstance(n.targets[0], ast.Attribute) and isinstance(n.targets[0].value, ast.Name)
+                and n.targets[0].value.id == "self" and isinstance(n.value, ast.Call) and isinstance(n.value.func, ast.Attribute) and n.value.func.attr in ("RLock", "Lock")):
+            locks.add(n.targets[0].attr)
+    fn = find_method(cls, "_perform_transition")
+
+    def touches_state(node):
+        d = ast.dump(node)
+        return "_current_state" in d or "attr='enter'" in d or "attr='leave'" in d
+    withs = [st for st in fn.body if isinstance(st, ast.With)]
+    outside = [st for st in fn.body if not isinstance(st, ast.With) and not (isinstance(st, ast.Expr) and isinstance(st.value, ast.Constant)) and touches_state(st)]
+    if outside:
+        return False
+    if len(withs) != 1 or len(withs[0].items) != 1:
+        return False
+    ctx = withs[0].items[0].context_expr
+    if not (isinstance(ctx, ast.Attribute) and isinstance(ctx.value, ast.Name) and ctx.value.id == "self" and ctx.attr in locks):
+        return False
+    body = ast.dump(ast.Module(body=withs[0].body, type_ignores=[]))
+    # the check, leave, the assignment, enter and the transition's own event
+    return all(k in body for k in ("WrongSourceStateError", "attr='leave'", "attr='enter'", "_current_state")) and any(
+        isinstance(st, ast.Expr) and isinstance(st.value, ast.Call) and isinstance(st.value.func, ast.Name) and st.value.func.id == "transition" for st in withs[0].body)
+
+
 def generate() -> str:
     out = ["(* GENERATED by harness/gen_statemachines.py from the three shipped state machine modules — do not edit. *)",
            "From SG Require Import Base.Prelude Model.StateMachine.", "Open Scope nat_scope.", ""]
@@ -115,6 +147,9 @@ def generate() -> str:
         for attr, _m, name, _p, _i in states:
             out.append(f"Definition {key}_{name} : nat := {index[attr]}.")
         out.append("")
+    out.append("(* secsgem/common/state_machine.py : StateMachine._perform_transition - check, leave, assignment, enter and the called event under one lock *)")
+    out.append(f"Definition engine_transition_locked : bool := {'true' if engine_locked() else 'false'}.")
+    out.append("")
     return "\n".join(out)
 
 
